@@ -11,7 +11,7 @@
 //! Case:   `n=3 cap=2|ev;ev;...`   events (see `Cluster::step`):
 //!   t:N  timer of node N fires          vq:C:P / vr:C:P / ve:C  vote request / response delivery, election end
 //!   w:N:X client write X at N           a:M r:M d:M u:M  deliver AE / deliver response / drop / duplicate msg M
-//!   se:L:P stream L->P breaks           lf:N log flushed at N      ac:N:I apply completed up to I at N
+//!   se:L:P stream L->P breaks (recv side)  sc:L:P stream torn down (next send fails)  lf:N log flushed at N      ac:N:I apply completed up to I at N
 //!   x:N:K crash (loses last K unflushed entries, no Drop)   g:N graceful stop   up:N start
 //! Output: one observable cluster state per event, joined by `|` (format in `Cluster::observe`).
 #[path = "cluster/sim.rs"]
